@@ -59,6 +59,12 @@ def classify(inv):
                 causes.append("failed_pause")
         for b, e in c.accepted("abort", "stop", "halt"):
             causes.append(b.d["do"])
+        # ... and a terminating request that took effect (the engine entered aborting / stopping / halting) although
+        # the requesting call itself then failed with something else (e.g. a device error while it resumed the task)
+        for b, e in c.injections:
+            if b.d["do"] in ("abort", "stop", "halt") and str(e.d["outcome"]).startswith("error"):
+                if any(x.kind == "state" and x.d["new"] in ("aborting", "stopping", "halting") and b.seq < x.seq < e.seq for x in c.events):
+                    causes.append(b.d["do"])
         if not resumable:
             # a pause / suspension request that reached the engine while it was running the non-resumable section
             # (not one that arrived after the plan's last message or when the engine was idle again)
